@@ -831,7 +831,14 @@ class Engine:
             out = []
             for s, p, _ in self.lv(sub, S):
                 if p is not None:
+                    f = s.nul.get(p)
+                    keep = (p + ('#lb' if op == '++' else '#ub')) in s.vs
                     self.assign_path(s, p, UNKNOWN, sub)
+                    if f is not None and f[1] is not None and f[1][0] == 'zero' and f[0] in ('N', 'NN', 'NULL') and not is_ptr_type(sub.type):
+                        # a counter that started at a value of the input still depends on it: stepping up keeps the lower bound, stepping down the upper one
+                        s.nul[p] = ('N', f[1])
+                        if keep:
+                            s.vs[p + ('#lb' if op == '++' else '#ub')] = ('in', frozenset([1]))
                 out.append((s, UNKNOWN))
             return out
         if op in ('-', '+', '~'):
